@@ -256,7 +256,9 @@ def run_unit(unit, rng, ctx):
     if k == 'manysites':
         ns = int([130, 260, 1100, 2100, 300, 1500][unit['i'] % 6])
         T = int(rng.integers(20, 60))
-        sys_ = gen.make_many_site_system(rng, ns, n_atoms=int(rng.integers(1, 4)), T=T, inner_fraction=float(rng.choice([1.0, 0.5])), p_move=0.4)
+        many_atoms = unit['i'] % 6 in (2, 4)
+        sys_ = gen.make_many_site_system(rng, ns, n_atoms=int(rng.integers(258, 300)) if many_atoms else int(rng.integers(1, 4)), T=12 if many_atoms else T, inner_fraction=float(rng.choice([1.0, 0.5])), p_move=0.4)
+        ctx.count('systems_with_more_than_255_atoms', many_atoms)
         ctx.count('many_site_systems')
     elif k == 'long':
         T = int([33000, 40000, 66000, 70000, 131100][unit['i'] % 5] + rng.integers(0, 500))
